@@ -23,7 +23,7 @@ man = dict(
     hooks=dict(
         guard='ABACUSUTILS_VERIF',
         enable='no source hooks: monitors attach from outside (module attribute patching, py_func, NUMBA_BOUNDSCHECK, MALLOC_PERTURB_); ./check exports ABACUSUTILS_VERIF=1 for completeness',
-        baseline_off_cmd='cd /repo && /venv/bin/python -m pytest -ra -q -p no:cacheprovider --timeout=900 --continue-on-collection-errors tests/test_tsc.py tests/test_util.py',
+        baseline_off_cmd='cd /repo && /venv/bin/python -m pytest -ra -q -p no:cacheprovider --timeout=900 --continue-on-collection-errors',
         source_commits=[],
         add_only=True,
     ),
